@@ -99,6 +99,28 @@ def observer_completeness(ctx, lc, cls, rule="R12.a"):
             "after a reset the observer still carries the previous episode",
             loc=w.loc, path=[*w.via, w.fi.qualname],
         )
+    # restoring by alias: reset rebinds self.A to an object that is reachable
+    # from another attribute (no copy) while update mutates self.A in place -
+    # the "pristine" source is corrupted by the first episode after a reset
+    inplace = {w.attr for w in wu if w.kind in ("inplace", "entry", "overwrite")}
+    for w in wr:
+        if w.kind != "rebind" or w.attr not in inplace:
+            continue
+        st = w.event.node
+        val = getattr(st, "value", None)
+        if val is None:
+            continue
+        for o in ctx.flow.origins(w.fi, val, cls):
+            if o[0] == "attr" and o[1] == w.fi.params[0] and o[2] and o[2][0] != w.attr:
+                ok = False
+                chk.violation(
+                    rule, f"{cls.qualname}.reset", st,
+                    f"reset restores `self.{w.attr}` from `self.{'.'.join(o[2])}` without copying it, and update "
+                    f"mutates `self.{w.attr}` in place: the stored initial state is overwritten during the next "
+                    "episode, so the second reset restores a corrupted state",
+                    loc=w.loc,
+                )
+                break
     if ok:
         chk.ok(rule, cls.qualname, rst.loc(), f"W_update={sorted({w.attr for w in wu})} ⊆ W_reset={sorted(strong | entry)}")
     return wu, wr
